@@ -220,7 +220,7 @@ func c09ReadyProbes(t *testing.T, res *verifResult) (string, string) {
 	var sb, idx strings.Builder
 	sb.WriteString("(* readiness probes: (configuration, injections before, the probe, signer set (observed), status) *)\n")
 	sb.WriteString("Definition ready_cases : list (nat * list inj * probe * bool * N) := [\n")
-	client := &http.Client{Timeout: 10 * time.Second, CheckRedirect: func(req *http.Request, via []*http.Request) error { return http.ErrUseLastResponse }}
+	client := &http.Client{Timeout: 60 * time.Second, CheckRedirect: func(req *http.Request, via []*http.Request) error { return http.ErrUseLastResponse }}
 	n := 0
 	first := true
 	for _, ps := range states {
